@@ -13,6 +13,7 @@
      services/epoch_service.rs     inform_epoch / precompute_epoch_data (signer sets by epoch offsets)
      services/signer_registration/leader.rs    registration round
      tools/single_signature_authenticator.rs   current-or-next authentication (HTTP route)
+     services/signature_processor.rs           DMQ ingress: authenticated without verification
      database/query/certificate/get_master_certificate.rs
 
    Idealisations: a certificate is a row; its aggregate key is the *set* of
@@ -63,7 +64,11 @@ Fixpoint insert (p : N) (l : list N) : list N :=
 Definition is_nil {A} (l : list A) : bool := match l with [] => true | _ => false end.
 
 (* ---------- rows ---------- *)
-Record sg := { sg_party : N; sg_set : list N; sg_signed : entity; sg_idxs : list N }.
+(* sg_dmq: ingress path.  false = POST /register-signatures (the route authenticates the signature
+   against the message the signer announces, under the current or the next stake distribution, and
+   drops it otherwise); true = DMQ consumer (SequentialSignatureProcessor::process_signatures marks
+   every received signature Authenticated without verifying it, then calls the same certifier) *)
+Record sg := { sg_party : N; sg_set : list N; sg_signed : entity; sg_idxs : list N; sg_dmq : bool }.
 
 Record om := {
   om_ent : entity;            (* (type, beacon); epoch_setting_id = en_epoch *)
@@ -205,8 +210,10 @@ Definition link_ok (parent c : cert) : bool :=
 Definition sig_valid_for (S : list N) (s : sg) (x : entity) : bool :=
   set_eqb (sg_set s) S && mem (sg_party s) S && ent_eqb (sg_signed s) x.
 (* authentication by the HTTP route: the signature verifies for the message the signer
-   says it signed, under the current or the next stake distribution *)
+   says it signed, under the current or the next stake distribution; the DMQ path authenticates
+   unconditionally (signature_processor.rs: authenticate_signature) *)
 Definition authenticated (ed : option edata) (s : sg) : bool :=
+  sg_dmq s ||
   match ed with
   | Some d => ed_comp d &&
       ((set_eqb (sg_set s) (ed_cur d) && mem (sg_party s) (ed_cur d)) ||
@@ -238,7 +245,7 @@ Definition register (s : st) (x : entity) (g : sg) : reg_res :=
       | None => RegRefused
       end
   end.
-(* route handler + BufferedCertifierService::register_single_signature *)
+(* route handler / DMQ processor + BufferedCertifierService::register_single_signature *)
 Definition on_sig (s : st) (g : sg) (x : entity) : st :=
   if authenticated (s_ed s) g then
     match register s x g with
